@@ -195,7 +195,7 @@ BOUNDS = {
                            "mixed": {"tokens": "13 + 1 glued", "line_tokens": 2, "depth": 2}},
               "spec_lines": "1 line of <= line_tokens tokens, or 2 lines of 1 token each",
               "counter_family": "6 long runs (300 IPv4 / 120 host names, ascending / descending / revisiting)",
-              "shapes_family": "9,815 explicit histories of 2-4 events: adjacent (two originals of a kind separated by one of : / , = - ( @ _ inside one token, or both glued), glue (every original x left/right literal text), channels (every ordered pair of clean_content(list) / clean_content(str) / width=True / clean_file / clean_file on netstat_-neopa on one Cleaner), exempt (no_obfuscate specs between normal ones), kw11 (11 configured keywords), second-cleaner (a second Cleaner in the same process), blank (empty lines / all-blank specs), fresh-process (second Cleaner vs a fresh interpreter)"},
+              "shapes_family": "8,815 explicit histories of 2-4 events: adjacent (two originals of a kind separated by one of : / , = - ( @ _ inside one token, or both glued), glue (every original x left/right literal text), channels (every ordered pair of clean_content(list) / clean_content(str) / width=True / clean_file / clean_file on netstat_-neopa on one Cleaner), exempt (no_obfuscate specs between normal ones), kw11 (11 configured keywords), second-cleaner (a second Cleaner in the same process), blank (empty lines / all-blank specs), fresh-process (second Cleaner vs a fresh interpreter)"},
     "thorough": {"families": {"ip": {"tokens": "7 + 1 glued", "line_tokens": 3, "depth": 4},
                               "host": {"tokens": "7 + case variant", "line_tokens": 3, "depth": 4},
                               "mk": {"tokens": "5 + 1 glued", "line_tokens": 3, "depth": 4},
@@ -204,7 +204,7 @@ BOUNDS = {
                  "spec_lines": "1 line of <= line_tokens tokens (3-token lines over the base tokens only, without the "
                                "glued / case-variant additions), or 2 lines of 1 token each",
                  "counter_family": "6 long runs (300 IPv4 / 120 host names, ascending / descending / revisiting)",
-                 "shapes_family": "9,815 explicit histories of 2-4 events: adjacent (two originals of a kind separated by one of : / , = - ( @ _ inside one token, or both glued), glue (every original x left/right literal text), channels (every ordered pair of clean_content(list) / clean_content(str) / width=True / clean_file / clean_file on netstat_-neopa on one Cleaner), exempt (no_obfuscate specs between normal ones), kw11 (11 configured keywords), second-cleaner (a second Cleaner in the same process), blank (empty lines / all-blank specs), fresh-process (second Cleaner vs a fresh interpreter)"},
+                 "shapes_family": "8,815 explicit histories of 2-4 events: adjacent (two originals of a kind separated by one of : / , = - ( @ _ inside one token, or both glued), glue (every original x left/right literal text), channels (every ordered pair of clean_content(list) / clean_content(str) / width=True / clean_file / clean_file on netstat_-neopa on one Cleaner), exempt (no_obfuscate specs between normal ones), kw11 (11 configured keywords), second-cleaner (a second Cleaner in the same process), blank (empty lines / all-blank specs), fresh-process (second Cleaner vs a fresh interpreter)"},
 }
 CAP_S = {"quick": 300, "thorough": 3000}
 
@@ -229,8 +229,8 @@ ASSUMPTIONS = [
     "what mapping() lists determines every future of the Cleaner (argued from the code in canon(); a tree with more "
     "hidden state could make merges too coarse = possible miss, never an alarm; snapshot-vs-replay agreement is "
     "sampled every 53rd state); states are held as pickle/deepcopy snapshots of the whole live Cleaner",
-    "set iteration order of the obfuscator names is the one of PYTHONHASHSEED=0 (order dependence is C10's subject; "
-    "the alphabet contains no token that two obfuscators compete for)",
+    "the order in which the obfuscators are applied is C10's subject; the alphabet contains no token that two "
+    "obfuscators compete for, so no verdict depends on it (PYTHONHASHSEED is pinned to 0 all the same)",
     "bounded: no counterexample within the stated alphabet, line width, spec shape and history depth, nothing more",
     "an unreplaced and unlisted original (host outside the domain, guarded MAC) is outside injectivity and reporting",
 ]
@@ -269,7 +269,26 @@ class _Cfg(object):
         self.rhsm_facts_file = facts
 
 
+_WARM = [False]
+WARMUP_LINE = "198.51.100.77 | warm.corp.test | 0a:0b:0c:0d:0e:0f | 2001:db8:77::77 | SECRETKW"
+
+
+def warmup():
+    """Once per process, before any case: another Cleaner cleans a line of originals that no case ever feeds.
+    Part of the meaning of every case descriptor ("an earlier collection run happened in this process"): a table
+    that lives on the class / module instead of the instance then shows the same phantom originals in the
+    explorer's worker and in the fresh interpreter that replays a violation, so such a defect ends as a
+    reproducible VIOLATION of clause (4) instead of a HARNESS-ERROR."""
+    if _WARM[0]:
+        return
+    _WARM[0] = True
+    with tmp.scratch("c09w") as d:
+        cl = _cleaner_cls()(_Cfg(os.path.join(d, "insights-client.facts")), {"keywords": list(KEYWORDS)}, fqdn=FQDN)
+        cl.clean_content([WARMUP_LINE])
+
+
 def new_cleaner(scratch_dir, keywords=None):
+    warmup()
     cl = _cleaner_cls()(_Cfg(os.path.join(scratch_dir, "insights-client.facts")),
                         {"keywords": list(keywords or KEYWORDS)}, fqdn=FQDN)
     cl.report_dir = scratch_dir            # the constructor hard-codes /tmp
